@@ -14,6 +14,17 @@ package guardiand
 // After every operation the length of every watcher channel is recorded; `drain` pops items and records their
 // content.  Every send is guarded by a timeout: a dispatcher that blocks is reported, never waited for.
 //
+// The harness OWNS the clock: besides Now() and the ticker channel, every other way of waiting on it (After, Sleep,
+// Timer, AfterFunc, Tick, WithTimeout, WithDeadline) is live - it is served by a benbjohnson mock that is created at
+// the harness' current time the first time the code under test arms a timer and from then on is moved (Mock.Set,
+// which fires what became due) every time the harness advances time.  The pinned loop arms nothing, so on it the
+// clock is a plain variable; code that defers work on the clock is actually exercised.  `adv` moves the clock without
+// any dispatcher event; the `late` sessions drop a request on a full watcher queue, drain the queue and step the clock
+// past 1 s / 5 s / 1 min / the window (repeats of the request interleaved), recording every queue after every step.
+//
+// Part 0 of the file drives the admin entry point nodePrivilegedService.SendObservationRequest (a caller of the post to
+// the outbound request queue) on queues of every fill level, under a watchdog.
+//
 // Case lines (one session = one case id):
 //   reset   <cid> tick=<ns passed to clock.Ticker|none> chans=<chain:cap,..|->
 //   req     <cid> now=<ns> chain=<uint32> tx=<hex|-> res=ok|blocked|dead lens=<chain:len,..|->
@@ -21,12 +32,16 @@ package guardiand
 //   drain   <cid> chain=<c> n=<k> got=<chain32:txhex;..|-> lens=..
 //   setchan <cid> chain=<c> cap=<k> lens=..
 //   delchan <cid> chain=<c> lens=..
+//   adv     <cid> now=<ns> lens=..
 //   end     <cid> res=ok|panic|running
+//   adminpost <id> cap=<k> fill=<j> ctx=bg|deadline res=ok|full|err|blocked|panic len=<n after> last=same|altered|missing|- prefix=ok|changed
 
 import (
 	"bufio"
+	"bytes"
 	"context"
 	"encoding/hex"
+	"errors"
 	"fmt"
 	"io"
 	"math/rand"
@@ -40,7 +55,9 @@ import (
 	"testing"
 	"time"
 
+	"github.com/alephium/wormhole-fork/node/pkg/common"
 	gossipv1 "github.com/alephium/wormhole-fork/node/pkg/proto/gossip/v1"
+	nodev1 "github.com/alephium/wormhole-fork/node/pkg/proto/node/v1"
 	"github.com/alephium/wormhole-fork/node/pkg/vaa"
 	"github.com/benbjohnson/clock"
 	"go.uber.org/zap"
@@ -54,12 +71,20 @@ var c17BarrierTx = []byte("c17-barrier")
 // ---------------------------------------------------------------- clock
 
 type c17Clock struct {
-	*clock.Mock // never advanced; only supplies the methods the dispatcher does not use
+	*clock.Mock // the "shell": never advanced; supplies well-formed Ticker values (their channel is replaced)
 	now         atomic.Int64
 	tickC       chan time.Time
 	mu          sync.Mutex
 	periods     []time.Duration
+
+	// live timers: a second mock, created AT the harness' current time by the first timer the code under test arms and
+	// kept at the harness' time from then on (only the harness goroutine calls Set on it)
+	armed  atomic.Int64
+	initMu sync.Mutex
+	liveM  *clock.Mock
 }
+
+func c17NewClock() *c17Clock { return &c17Clock{Mock: clock.NewMock(), tickC: make(chan time.Time)} }
 
 func (c *c17Clock) Now() time.Time                  { return time.Unix(0, c.now.Load()).UTC() }
 func (c *c17Clock) Since(t time.Time) time.Duration { return c.Now().Sub(t) }
@@ -71,6 +96,56 @@ func (c *c17Clock) Ticker(d time.Duration) *clock.Ticker {
 	t := c.Mock.Ticker(d) // a well-formed ticker (Stop() works); only its channel is replaced
 	t.C = c.tickC
 	return t
+}
+
+func (c *c17Clock) live() *clock.Mock {
+	c.initMu.Lock()
+	defer c.initMu.Unlock()
+	if c.liveM == nil {
+		m := clock.NewMock()
+		m.Set(c.Now()) // no timer registered yet: nothing fires
+		c.liveM = m
+	}
+	return c.liveM
+}
+
+// arm: the code under test starts waiting on the clock
+func (c *c17Clock) arm() *clock.Mock {
+	c.armed.Add(1)
+	return c.live()
+}
+
+func (c *c17Clock) After(d time.Duration) <-chan time.Time { return c.arm().After(d) }
+func (c *c17Clock) AfterFunc(d time.Duration, f func()) *clock.Timer {
+	return c.arm().AfterFunc(d, func() { go f() })
+}
+func (c *c17Clock) Sleep(d time.Duration)                 { <-c.arm().After(d) }
+func (c *c17Clock) Tick(d time.Duration) <-chan time.Time { return c.arm().Tick(d) }
+func (c *c17Clock) Timer(d time.Duration) *clock.Timer    { return c.arm().Timer(d) }
+func (c *c17Clock) WithDeadline(p context.Context, d time.Time) (context.Context, context.CancelFunc) {
+	return c.arm().WithDeadline(p, d)
+}
+func (c *c17Clock) WithTimeout(p context.Context, d time.Duration) (context.Context, context.CancelFunc) {
+	return c.arm().WithTimeout(p, d)
+}
+
+// how long the harness lets goroutines woken by a timer run before it looks at the queues (only when something is armed)
+const c17Settle = 3 * time.Millisecond
+
+// set moves the harness' clock.  With nothing armed this is a store; otherwise everything that became due fires
+// (result true: timers were live while time moved).
+func (c *c17Clock) set(now int64) bool {
+	c.now.Store(now)
+	if c.armed.Load() == 0 {
+		return false
+	}
+	m := c.live()
+	if t := c.Now(); t.After(m.Now()) {
+		m.Set(t)
+		time.Sleep(c17Settle)
+		return true
+	}
+	return false
 }
 
 // ---------------------------------------------------------------- logger used only for synchronisation
@@ -109,6 +184,7 @@ type c17Sess struct {
 	panicked atomic.Bool
 	stuck    bool
 	muted    bool
+	slow     bool // late sessions: see req()
 	nosync   int
 }
 
@@ -128,12 +204,12 @@ func c17Start(w *bufio.Writer, cid string, caps map[uint16]int) *c17Sess {
 		s.done = make(chan struct{})
 		close(s.done)
 		s.cancel = func() {}
-		s.clk = &c17Clock{Mock: clock.NewMock(), tickC: make(chan time.Time)}
+		s.clk = c17NewClock()
 		s.chans = map[vaa.ChainID]chan *gossipv1.ObservationRequest{}
 		s.logC = make(chan string, 1)
 		return s
 	}
-	s.clk = &c17Clock{Mock: clock.NewMock(), tickC: make(chan time.Time)}
+	s.clk = c17NewClock()
 	s.reqC = make(chan *gossipv1.ObservationRequest)
 	s.chans = map[vaa.ChainID]chan *gossipv1.ObservationRequest{}
 	for c, k := range caps {
@@ -244,16 +320,59 @@ func c17Tx(b []byte) string {
 }
 
 func (s *c17Sess) req(now int64, chain uint32, tx []byte) {
-	s.clk.now.Store(now)
+	s.moveTo(now)
+	before := s.lens()
 	res := s.sendReq(&gossipv1.ObservationRequest{ChainId: chain, TxHash: tx})
 	if res == "ok" {
 		res, _ = s.barrier()
 	}
+	if s.slow && res == "ok" && s.lens() == before {
+		// nothing was forwarded (dropped or suppressed): give anything the loop may have started for later a moment to
+		// arm its timer, so that the clock steps that follow are seen by it
+		s.pause(c17Pause)
+	}
 	fmt.Fprintf(s.w, "req %s now=%d chain=%d tx=%s res=%s lens=%s\n", s.cid, now, chain, c17Tx(tx), res, s.lens())
 }
 
+const c17Pause = 1500 * time.Microsecond
+
+// pause waits up to d, or less if the code under test arms a timer meanwhile
+func (s *c17Sess) pause(d time.Duration) {
+	a := s.clk.armed.Load()
+	for end := time.Now().Add(d); time.Now().Before(end) && s.clk.armed.Load() == a; {
+		time.Sleep(100 * time.Microsecond)
+	}
+}
+
+// moveTo sets the clock for the operation that follows; when timers were live while time moved, what the queues look
+// like BEFORE the operation is recorded as a clock advance of its own
+func (s *c17Sess) moveTo(now int64) {
+	if s.clk.set(now) && !s.muted {
+		fmt.Fprintf(s.w, "adv %s now=%d lens=%s\n", s.cid, now, s.lens())
+	}
+}
+
+// adv: time passes, nothing else happens
+func (s *c17Sess) adv(now int64) {
+	if s.muted {
+		return
+	}
+	s.clk.set(now)
+	fmt.Fprintf(s.w, "adv %s now=%d lens=%s\n", s.cid, now, s.lens())
+}
+
+// drainAll empties every watcher queue (after letting armed timers' consequences settle)
+func (s *c17Sess) drainAll() {
+	if s.clk.armed.Load() > 0 {
+		time.Sleep(10 * c17Settle)
+	}
+	for _, c := range c17SortedChains(s.chans) {
+		s.drain(uint16(c), 64)
+	}
+}
+
 func (s *c17Sess) tick(now int64) {
-	s.clk.now.Store(now)
+	s.moveTo(now)
 	res := "ok"
 	if s.stuck {
 		res = "blocked"
@@ -329,6 +448,199 @@ func (s *c17Sess) end() {
 		res = "panic"
 	}
 	fmt.Fprintf(s.w, "end %s res=%s\n", s.cid, res)
+}
+
+// ---------------------------------------------------------------- part 0: the admin entry point
+
+const c17AdminTimeout = 10 * time.Second
+
+type c17AdminCall struct {
+	k, j   int
+	kind   string
+	q      chan *gossipv1.ObservationRequest
+	fill   []*gossipv1.ObservationRequest
+	req    *gossipv1.ObservationRequest
+	chain  uint32
+	tx     []byte
+	resC   chan string
+	cancel context.CancelFunc
+}
+
+// c17AdminStart builds the service value the way adminServiceRunnable does (only the fields the method uses), an outbound
+// request queue of capacity k holding j requests, and starts the REAL SendObservationRequest in its own goroutine.
+func c17AdminStart(r *rand.Rand, k, j int, kind string) *c17AdminCall {
+	c := &c17AdminCall{k: k, j: j, kind: kind, q: make(chan *gossipv1.ObservationRequest, k), resC: make(chan string, 1)}
+	for i := 0; i < j; i++ {
+		f := &gossipv1.ObservationRequest{ChainId: uint32(i + 1), TxHash: []byte{byte(i), 0xf1}}
+		c.fill = append(c.fill, f)
+		c.q <- f
+	}
+	c.chain = []uint32{0, 1, 2, 255, 65535, 65536 + 2, 1 << 31}[r.Intn(7)]
+	switch r.Intn(4) {
+	case 0:
+		c.tx = nil
+	case 1:
+		c.tx = make([]byte, r.Intn(70))
+		r.Read(c.tx)
+	default:
+		c.tx = make([]byte, 32)
+		r.Read(c.tx)
+	}
+	c.req = &gossipv1.ObservationRequest{ChainId: c.chain, TxHash: append([]byte(nil), c.tx...)}
+	if c.tx == nil {
+		c.req.TxHash = nil
+	}
+	ctx, cancel := context.Background(), context.CancelFunc(func() {})
+	if kind == "deadline" { // a caller prepared to wait (far longer than the harness is)
+		ctx, cancel = context.WithTimeout(context.Background(), time.Hour)
+	}
+	c.cancel = cancel
+	svc := &nodePrivilegedService{obsvReqSendC: c.q, logger: zap.NewNop()}
+	go func() {
+		defer func() {
+			if e := recover(); e != nil {
+				c.resC <- "panic"
+			}
+		}()
+		resp, err := svc.SendObservationRequest(ctx, &nodev1.SendObservationRequestRequest{ObservationRequest: c.req})
+		switch {
+		case err == nil && resp != nil:
+			c.resC <- "ok"
+		case err == nil:
+			c.resC <- "err" // neither a response nor an error
+		case errors.Is(err, common.ErrChanFull):
+			c.resC <- "full"
+		default:
+			c.resC <- "err"
+		}
+	}()
+	return c
+}
+
+// finish waits for the call until the deadline (never longer) and writes the case line.
+func (c *c17AdminCall) finish(w *bufio.Writer, id string, deadline time.Time) string {
+	res := "blocked"
+	t := time.NewTimer(time.Until(deadline))
+	select {
+	case res = <-c.resC:
+	case <-t.C:
+	}
+	t.Stop()
+	n := len(c.q)
+	last, prefix := "-", "ok"
+	if res != "blocked" {
+		var items []*gossipv1.ObservationRequest
+		for len(c.q) > 0 {
+			items = append(items, <-c.q)
+		}
+		for i, f := range c.fill {
+			if i >= len(items) || items[i] != f || f.ChainId != uint32(i+1) || !bytes.Equal(f.TxHash, []byte{byte(i), 0xf1}) {
+				prefix = "changed"
+			}
+		}
+		if res == "ok" {
+			switch {
+			case len(items) != c.j+1:
+				last = "missing"
+			case items[c.j] == nil || items[c.j].ChainId != c.chain || !bytes.Equal(items[c.j].TxHash, c.tx):
+				last = "altered"
+			default:
+				last = "same"
+			}
+		}
+	} else { // release the stuck call: give up its context and make room
+		c.cancel()
+		for len(c.q) > 0 {
+			<-c.q
+		}
+	}
+	c.cancel()
+	fmt.Fprintf(w, "adminpost %s cap=%d fill=%d ctx=%s res=%s len=%d last=%s prefix=%s\n", id, c.k, c.j, c.kind, res, n, last, prefix)
+	return res
+}
+
+// c17AdminPosts: every fill level 0..cap of the production queue size and of small queues, callers with and without a
+// deadline.  Calls on a queue with room are made one by one; the calls on FULL queues are all started first and share
+// one watchdog, so that an entry point that waits for room costs one timeout, not one per call.
+func c17AdminPosts(r *rand.Rand, w *bufio.Writer) int {
+	n := 0
+	var full []*c17AdminCall
+	for _, k := range []int{common.ObsvReqChannelSize, 0, 1, 2, 3, 7} {
+		for j := 0; j <= k; j++ {
+			for _, kind := range []string{"bg", "deadline"} {
+				c := c17AdminStart(r, k, j, kind)
+				if j == k {
+					full = append(full, c)
+					continue
+				}
+				n++
+				c.finish(w, fmt.Sprintf("ap%d", n), time.Now().Add(c17AdminTimeout))
+			}
+		}
+	}
+	deadline := time.Now().Add(c17AdminTimeout)
+	stalled := false
+	for _, c := range full {
+		n++
+		if c.finish(w, fmt.Sprintf("ap%d", n), deadline) == "blocked" {
+			stalled = true
+		}
+	}
+	if stalled { // the timeout has been spent once: enough evidence
+		return n
+	}
+	// a queue filled call by call through the entry point: exactly cap successes, then failures, then one more success
+	// after a slot is freed
+	for _, k := range []int{1, 3, common.ObsvReqChannelSize} {
+		q := make(chan *gossipv1.ObservationRequest, k)
+		svc := &nodePrivilegedService{obsvReqSendC: q, logger: zap.NewNop()}
+		call := func() string {
+			resC := make(chan string, 1)
+			ctx, cancel := context.WithTimeout(context.Background(), time.Hour)
+			defer cancel()
+			go func() {
+				defer func() {
+					if e := recover(); e != nil {
+						resC <- "panic"
+					}
+				}()
+				_, err := svc.SendObservationRequest(ctx, &nodev1.SendObservationRequestRequest{ObservationRequest: &gossipv1.ObservationRequest{ChainId: 4, TxHash: []byte{9}}})
+				switch {
+				case err == nil:
+					resC <- "ok"
+				case errors.Is(err, common.ErrChanFull):
+					resC <- "full"
+				default:
+					resC <- "err"
+				}
+			}()
+			t := time.NewTimer(c17AdminTimeout)
+			defer t.Stop()
+			select {
+			case res := <-resC:
+				return res
+			case <-t.C:
+				return "blocked"
+			}
+		}
+		stuck := false
+		for i := 0; i < k+2 && !stuck; i++ {
+			before := len(q)
+			res := call()
+			stuck = res == "blocked"
+			n++
+			fmt.Fprintf(w, "adminpost ap%d cap=%d fill=%d ctx=deadline res=%s len=%d last=- prefix=ok\n", n, k, before, res, len(q))
+		}
+		if stuck {
+			break // one timeout is enough evidence
+		}
+		<-q
+		before := len(q)
+		res := call()
+		n++
+		fmt.Fprintf(w, "adminpost ap%d cap=%d fill=%d ctx=deadline res=%s len=%d last=- prefix=ok\n", n, k, before, res, len(q))
+	}
+	return n
 }
 
 // ---------------------------------------------------------------- generators
@@ -445,6 +757,56 @@ func (g *c17Gen) unknownSession() {
 	s.end()
 }
 
+// late: the queue of chain 4 (capacity k) is full when X and Y arrive - both are dropped; X for chain 7, which nobody
+// watches, is dropped too.  The queue is drained (at once, or after the step with index drainAt), and the clock is
+// stepped past 1 s / 5 s / 1 min / the ticker period / the window (+-1 ns) with a purge tick whenever a multiple of the
+// period is crossed.  X is repeated never (0) / once at +1 s (1) / after every step (2) / once at +6 s (3).  Every queue
+// is recorded after every step and (drainEach) emptied, so that whatever reaches a watcher is seen and identified.
+func (g *c17Gen) lateSession(k, repeat, drainAt int, drainEach bool) {
+	s := c17Start(g.w, g.cid("late"), map[uint16]int{4: k, 5: 1})
+	s.slow = true
+	S, M, W, P := int64(time.Second), int64(time.Minute), g.window, g.period
+	t := int64(g.r.Intn(int(P)))
+	for i := 0; i < k; i++ {
+		s.req(t, 4, append([]byte{byte(i), 0xbb}, g.tx32()...))
+	}
+	X, Y := g.tx32(), g.tx32()
+	s.req(t, 4, X) // dropped: queue full
+	s.req(t, 4, Y) // dropped: queue full
+	s.req(t, 5, X) // the same transaction on chain 5 is another key: forwarded
+	s.req(t, 7, X) // nobody watches chain 7: dropped
+	if drainAt == 0 {
+		s.drain(4, k)
+	}
+	offs := []int64{1, S - 1, S, S + 1, 5*S - 1, 5 * S, 5*S + 1, 6 * S, 10*S + 1, M, M + 1, P, W - 1, W, W + 1, W + P, 2*W + P + 1}
+	last := t
+	for i, off := range offs {
+		now := t + off
+		s.adv(now)
+		if now/P > last/P {
+			s.tick(now)
+		}
+		last = now
+		if drainAt == i+1 {
+			s.drain(4, k)
+		}
+		if off == 6*S {
+			s.setchan(7, 1) // a watcher for chain 7 appears: the request dropped earlier must not reach it
+		}
+		switch {
+		case repeat == 1 && off == S, repeat == 2, repeat == 3 && off == 6*S:
+			s.req(now, 4, X)
+		}
+		if drainEach {
+			s.drain(4, k+1)
+			s.drain(5, 1)
+			s.drain(7, 1)
+		}
+	}
+	s.drainAll()
+	s.end()
+}
+
 func (g *c17Gen) randomSession(nops int) {
 	r := g.r
 	chainsAll := []uint16{0, 1, 2, 4, 6, 255, 256, 65534}
@@ -532,9 +894,7 @@ func (g *c17Gen) randomSession(nops int) {
 			s.delchan(known())
 		}
 	}
-	for _, c := range c17SortedChains(s.chans) {
-		s.drain(uint16(c), 64)
-	}
+	s.drainAll()
 	s.end()
 }
 
@@ -562,6 +922,9 @@ func TestVerifC17Reobserve(t *testing.T) {
 		g.period = v
 	}
 	W, P := g.window, g.period
+
+	// 0. the admin entry point
+	g.dist["adminpost"] = c17AdminPosts(g.r, w)
 
 	// 1. window boundary, ticker phases: forward at phase phi, ticks at k*P (+ jitter)
 	for _, phi := range []int64{0, 1, 2*P - W - 1, 2*P - W, 2*P - W + 1, P - 1, P, P + 1, 3*P - W - 1, 3*P - W, 3*P - W + 1, int64(g.r.Intn(int(P)))} {
@@ -591,6 +954,18 @@ func TestVerifC17Reobserve(t *testing.T) {
 			g.fillSession(k, j)
 		}
 	}
+	// 3b. dropped on a full queue, the queue drains, time passes (with and without repeats of the request)
+	li := 0
+	for _, k := range []int{1, 2, 3} {
+		for repeat := 0; repeat <= 3; repeat++ {
+			for _, drainAt := range []int{0, 4, 8} {
+				g.lateSession(k, repeat, drainAt, li%2 == 0 || repeat == 0)
+				li++
+			}
+		}
+	}
+	g.lateSession(50, 0, 0, true)
+	g.lateSession(50, 1, 0, false)
 	// 4. unknown chains
 	nunk, nrnd, nops := 8, 400, 60
 	if tier == "thorough" {
